@@ -478,9 +478,12 @@ class Program:
                         continue
                     tgt = None
                     cf = call.func
-                    if isinstance(cf, ast.Name) and cf.id.startswith("_"):
+                    if isinstance(cf, ast.Name):
                         q = self.resolve_name(f.module, cf.id)
                         tgt = self.functions.get(q) if q else None
+                        # private = underscore name, or any function of a private module (geometer/_helpers.py)
+                        if tgt is not None and not (cf.id.startswith("_") or tgt.module.name.split(".")[-1].startswith("_")):
+                            tgt = None
                     elif isinstance(cf, ast.Attribute) and cf.attr.startswith("_") and not cf.attr.startswith("__") and isinstance(cf.value, ast.Name) \
                             and f.cls is not None and cf.value.id in (selfn, "cls", f.cls.name):
                         tgt = self.lookup(f.cls, cf.attr)
